@@ -45,6 +45,8 @@ func runC19(c *core.Ctx) {
 	c19R3(c)
 	c19R4(c)
 	c19R5(c)
+	uniqueRule(c, "C19.R6")
+	poolRule(c, "C19.R7", "message")
 }
 
 func c19R1(c *core.Ctx) {
@@ -516,4 +518,45 @@ func keysOf(m map[string]bool) []string {
 		out = append(out, k)
 	}
 	return out
+}
+
+// uniqueRule: message ids are (time, per-process counter, per-process nonce). The counter
+// restarts at 1 in every process, so two processes started within one second on the same store
+// produce the same ids unless the nonce differs: the package variable `unique` is assigned only
+// by the package initialiser, from crypto/rand, and NewID writes it into the id.
+func uniqueRule(c *core.Ctx, rule string) {
+	c.Rule(rule, "message.unique (the per-process component of every message id) is assigned only by the package initialiser, from a value drawn from crypto/rand", 1)
+	sp := c.P.SSAPkg("internal/message")
+	if sp == nil {
+		c.Undecided(rule, "anchor:message", token.NoPos, "package missing")
+		return
+	}
+	g, _ := sp.Members["unique"].(*ssa.Global)
+	if g == nil {
+		c.Undecided(rule, "anchor:message.unique", token.NoPos, "anchor missing: package variable message.unique")
+		return
+	}
+	n := 0
+	fns := append([]*ssa.Function{}, c.P.ScopeFuncs()...)
+	if ini := sp.Func("init"); ini != nil {
+		fns = append(fns, ini)
+	}
+	for _, f := range fns {
+		eng.Instrs(f, func(in ssa.Instruction) {
+			st, ok := in.(*ssa.Store)
+			if !ok || st.Addr != ssa.Value(g) {
+				return
+			}
+			n++
+			if f.Name() != "init" {
+				c.Fail(rule, fnName(f)+":assigns message.unique", st.Pos(), "the per-process id component is reassigned at run time by "+fnName(f))
+				return
+			}
+			ok2, why := fromCryptoRand(st.Val, 0)
+			c.Check(ok2, rule, "message.unique:drawn from crypto/rand", st.Pos(), "the per-process component of message ids is random per process", "the per-process component of message ids is not drawn from crypto/rand ("+why+"): two processes started within the same second on one store produce identical ids (time, counter restarting at 1, same nonce) and the second overwrites acknowledged messages of the first")
+		})
+	}
+	if n == 0 {
+		c.Undecided(rule, "message.unique:initialised", token.NoPos, "no assignment of message.unique found")
+	}
 }
